@@ -53,6 +53,18 @@ def boundary_cases(rng):
             inst = [1, [["lin", [[[4, f64(1.0)]], f64(0.0)]]], [GI.dv(4, kind, None)],
                     [GI.constraint(2, 2, ["lin", [[[4, f64(2.0)]], f64(0.0)]])], [], [], [], [], []]   # exact for every v
             out.append([inst, [[4, f64(v)]]])
+    # a used variable that occurs ONLY as the column (second) factor of quadratic entries whose row partner is 0 in the
+    # state, and is itself missing from the state: must be rejected (objective / constraint / removed constraint)
+    for where in ("objective", "constraint", "removed"):
+        for zero in (0.0, -0.0):
+            q = ["quad", [[1, 1], [2, 3], [f64(2.0), f64(-1.0)], [[[[1, f64(1.0)]], f64(0.5)]]]]
+            obj = [q] if where == "objective" else [["const", f64(0.0)]]
+            cons = [GI.constraint(4, 2, q)] if where == "constraint" else []
+            rem = [[[GI.constraint(6, 1, q)], "why", []]] if where == "removed" else []
+            inst = [1, obj, [GI.dv(1, 3, (-4.0, 4.0)), GI.dv(2, 2, (-4.0, 4.0)), GI.dv(3, 3, None)], cons, rem, [], [], [], []]
+            out.append([inst, [[1, f64(zero)], [2, f64(1.0)]]])          # 3 is missing, its partner 1 is zero
+            out.append([inst, [[1, f64(zero)], [3, f64(1.0)]]])          # 2 is missing
+            out.append([inst, [[1, f64(1.0)], [2, f64(1.0)]]])           # 3 is missing, partner non-zero
     # invalid bounds
     for b in [(1.0, 0.0), (float("inf"), float("inf")), (float("-inf"), float("-inf")), (float("nan"), 1.0)]:
         inst = [1, [["const", f64(1.0)]], [GI.dv(1, 3, b)], [], [], [], [], [], []]
